@@ -71,11 +71,11 @@ fn desc(g: u8, v: u8) -> Option<(Num, bool, Tk)> {
     })
 }
 
-const STATIC_GROUP: [u8; 8] = [1, 3, 10, 20, 21, 30, 40, 110];
-const EVENT_GROUP: [u8; 8] = [2, 4, 11, 22, 23, 32, 42, 111];
+pub const STATIC_GROUP: [u8; 8] = [1, 3, 10, 20, 21, 30, 40, 110];
+pub const EVENT_GROUP: [u8; 8] = [2, 4, 11, 22, 23, 32, 42, 111];
 const PTYPES: [PType; 8] = [PType::Binary, PType::DoubleBit, PType::BinaryOutputStatus, PType::Counter, PType::FrozenCounter, PType::Analog, PType::AnalogOutputStatus, PType::OctetString];
 
-fn svars(t: usize) -> &'static [u8] {
+pub fn svars(t: usize) -> &'static [u8] {
     match t {
         0 | 1 | 2 => &[1, 2],
         3 => &[1, 2, 5, 6],
@@ -85,7 +85,7 @@ fn svars(t: usize) -> &'static [u8] {
         _ => &[0],
     }
 }
-fn evars(t: usize) -> &'static [u8] {
+pub fn evars(t: usize) -> &'static [u8] {
     match t {
         0 | 1 => &[1, 2, 3],
         2 => &[1, 2],
@@ -95,7 +95,7 @@ fn evars(t: usize) -> &'static [u8] {
     }
 }
 
-fn add(db: &mut Database, t: usize, index: u16, sv: u8, ev: u8, class: Option<EventClass>) {
+pub fn add(db: &mut Database, t: usize, index: u16, sv: u8, ev: u8, class: Option<EventClass>) {
     match t {
         0 => {
             let s = if sv == 1 { StaticBinaryInputVariation::Group1Var1 } else { StaticBinaryInputVariation::Group1Var2 };
@@ -180,16 +180,16 @@ fn add(db: &mut Database, t: usize, index: u16, sv: u8, ev: u8, class: Option<Ev
 
 /// a value as put into the database
 #[derive(Clone, Debug, PartialEq)]
-struct Src {
-    t: usize,
-    index: u16,
+pub struct Src {
+    pub t: usize,
+    pub index: u16,
     /// bool / dbit / counter as integer, analog as f64 bits
-    int: u32,
-    real: f64,
-    bytes: Vec<u8>,
-    flags: u8,
-    sync: bool,
-    time: u64,
+    pub int: u32,
+    pub real: f64,
+    pub bytes: Vec<u8>,
+    pub flags: u8,
+    pub sync: bool,
+    pub time: u64,
 }
 
 fn analog_value(r: &mut Rng) -> f64 {
@@ -233,7 +233,33 @@ fn counter_value(r: &mut Rng) -> u32 {
     }
 }
 
-fn update(sim: &OutSim, s: &Src) {
+/// a value with arbitrary content for point (t, index)
+pub fn random_src(r: &mut Rng, t: usize, index: u16) -> Src {
+    Src {
+        t,
+        index,
+        int: match t {
+            0 | 2 => r.below(2) as u32,
+            1 => r.below(4) as u32,
+            _ => counter_value(r),
+        },
+        real: analog_value(r),
+        bytes: {
+            let n = r.range(1, 12) as usize;
+            r.bytes(n)
+        },
+        flags: match r.below(4) {
+            0 => 0x01,
+            1 => r.u8(),
+            2 => 0x01 | (1 << r.below(8)),
+            _ => r.u8() & 0x1F,
+        },
+        sync: r.bool(),
+        time: r.u64() & MAX48,
+    }
+}
+
+pub fn update(sim: &OutSim, s: &Src) {
     let f = Flags::new(s.flags);
     let tm = if s.sync { Time::synchronized(s.time) } else { Time::unsynchronized(s.time) };
     let opt = UpdateOptions::new(true, EventMode::Force);
